@@ -3,7 +3,7 @@
 time, in memory, and run every property's rules on the variant.  Any new VIOLATION or analysis problem on a benign variant is a
 brittle rule that must be hardened.
 
-usage: tools/benign_fuzz.py [--props C01,C02] [--kinds rename,log,reformat,negate,flipcmp,commute,hoist,inline] [--files pyrex/signals.py,...] [-j 16]
+usage: tools/benign_fuzz.py [--props C01,C02] [--kinds rename,log,reformat,negate,flipcmp,commute,hoist,inline,elseret,annotate,raisemsg,shuffle,extract,combo] [--files pyrex/signals.py,...] [-j 16]
 """
 import argparse
 import ast
@@ -234,13 +234,164 @@ class InlineTemp(ast.NodeTransformer):
         return node
 
 
+class ElseAfterReturn(ast.NodeTransformer):
+    """if c: ...; return X  else: Y   <->   if c: ...; return X;  Y      (both directions: an else is removed when present, added
+    when the if is the last-but-rest of a function body)"""
+    TERM = (ast.Return, ast.Raise)
+
+    def _seq(self, seq):
+        out = []
+        i = 0
+        while i < len(seq):
+            st = seq[i]
+            if isinstance(st, ast.If) and st.body and isinstance(st.body[-1], self.TERM):
+                if st.orelse and not (len(st.orelse) == 1 and isinstance(st.orelse[0], ast.If)):
+                    tail = st.orelse
+                    st.orelse = []
+                    out.append(st)
+                    out.extend(tail)
+                    i += 1
+                    continue
+                if not st.orelse and i + 1 < len(seq):
+                    st.orelse = seq[i + 1:]
+                    out.append(st)
+                    return out
+            out.append(st)
+            i += 1
+        return out
+
+    def generic_visit(self, node):
+        super().generic_visit(node)
+        for field in ("body", "orelse", "finalbody"):
+            seq = getattr(node, field, None)
+            if isinstance(seq, list) and seq and isinstance(seq[0], ast.stmt) and not isinstance(node, (ast.Module, ast.ClassDef)):
+                setattr(node, field, self._seq(seq))
+        return node
+
+
+class Annotate(ast.NodeTransformer):
+    def visit_FunctionDef(self, node):
+        self.generic_visit(node)
+        for a in node.args.args:
+            if a.arg not in ("self", "cls") and a.annotation is None:
+                a.annotation = ast.Constant(value="object")
+        return node
+
+
+class RaiseMessages(ast.NodeTransformer):
+    def visit_Raise(self, node):
+        if isinstance(node.exc, ast.Call):
+            for a in node.exc.args:
+                for m in ast.walk(a):
+                    if isinstance(m, ast.Constant) and isinstance(m.value, str):
+                        m.value = m.value + " (reworded)"
+        return node
+
+
+class ShuffleMembers(ast.NodeTransformer):
+    """plain methods (no decorators) of every class are moved to the end of the class body in reverse order; module-level functions
+    likewise (after everything else they may need at definition time -- only undecorated ones are moved)"""
+
+    def _shuffle(self, body):
+        plain = [st for st in body if isinstance(st, ast.FunctionDef) and not st.decorator_list]
+        names = [st.name for st in body if isinstance(st, ast.FunctionDef)]
+        plain = [st for st in plain if names.count(st.name) == 1]
+        rest = [st for st in body if st not in plain]
+        return rest + plain[::-1]
+
+    def visit_ClassDef(self, node):
+        self.generic_visit(node)
+        # class-level statements that *use* a method at class-creation time (e.g. property(fget)) keep their order w.r.t. it
+        uses = {n.id for st in node.body if not isinstance(st, ast.FunctionDef) for n in ast.walk(st) if isinstance(n, ast.Name)}
+        if not any(isinstance(st, ast.FunctionDef) and st.name in uses for st in node.body):
+            node.body = self._shuffle(node.body)
+        return node
+
+
+class ExtractHelper(ast.NodeTransformer):
+    """x = <pure BinOp over plain names>  ->  x = self._vh_k(a, b) with a new method `_vh_k(self, a, b): return <expr>` (methods), or a
+    new module-level function for module-level functions; first eligible statement of each function"""
+
+    def __init__(self):
+        self.k = 0
+        self.cls = []
+        self.new_module = []
+
+    def visit_ClassDef(self, node):
+        self.cls.append([])
+        self.generic_visit(node)
+        node.body.extend(self.cls.pop())
+        return node
+
+    def visit_FunctionDef(self, node):
+        in_class = bool(self.cls) and node.args.args and node.args.args[0].arg == "self" and not node.decorator_list
+        top = not self.cls
+        if not (in_class or top) or getattr(self, "_inside", False):
+            return node
+        self._inside = True
+        done = False
+        for holder in ast.walk(node):
+            if done:
+                break
+            if isinstance(holder, (ast.Lambda, ast.ListComp, ast.GeneratorExp, ast.DictComp, ast.SetComp)) or (isinstance(holder, ast.FunctionDef) and holder is not node):
+                continue
+            for field in ("body", "orelse"):
+                seq = getattr(holder, field, None)
+                if not (isinstance(seq, list) and seq and isinstance(seq[0], ast.stmt)):
+                    continue
+                for st in seq:
+                    if isinstance(st, ast.Assign) and len(st.targets) == 1 and isinstance(st.targets[0], ast.Name) and isinstance(st.value, ast.BinOp) and _pure(st.value):
+                        names = []
+                        okay = True
+                        for n in ast.walk(st.value):
+                            if isinstance(n, ast.Name):
+                                if n.id not in names:
+                                    names.append(n.id)
+                            elif isinstance(n, (ast.Attribute, ast.Subscript)):
+                                okay = False
+                        # only locals / parameters as operands (module globals would still resolve, but keep it simple)
+                        local = {m.id for m in ast.walk(node) if isinstance(m, ast.Name) and isinstance(m.ctx, ast.Store)} | {a.arg for a in node.args.args}
+                        if not okay or not names or not all(n in local for n in names) or "self" in names:
+                            continue
+                        self.k += 1
+                        hname = f"_vh_{self.k}"
+                        args = ast.arguments(posonlyargs=[], args=([ast.arg(arg="self")] if in_class else []) + [ast.arg(arg=n) for n in names], kwonlyargs=[], kw_defaults=[], defaults=[])
+                        helper = ast.FunctionDef(name=hname, args=args, body=[ast.Return(value=st.value)], decorator_list=[], returns=None, type_comment=None, type_params=[])
+                        fn_ref = ast.Attribute(value=ast.Name(id="self", ctx=ast.Load()), attr=hname, ctx=ast.Load()) if in_class else ast.Name(id=hname, ctx=ast.Load())
+                        st.value = ast.Call(func=fn_ref, args=[ast.Name(id=n, ctx=ast.Load()) for n in names], keywords=[])
+                        (self.cls[-1] if in_class else self.new_module).append(helper)
+                        done = True
+                        break
+                if done:
+                    break
+        self._inside = False
+        return node
+
+    def visit_Module(self, node):
+        self.generic_visit(node)
+        # module-level helpers go right after the imports so they exist before any module-level use
+        k = 0
+        while k < len(node.body) and (isinstance(node.body[k], (ast.Import, ast.ImportFrom)) or (isinstance(node.body[k], ast.Expr) and isinstance(node.body[k].value, ast.Constant))):
+            k += 1
+        node.body[k:k] = self.new_module
+        return node
+
+
 def mark_elifs(tree):
     for n in ast.walk(tree):
         if isinstance(n, ast.If) and len(n.orelse) == 1 and isinstance(n.orelse[0], ast.If):
             n.orelse[0]._is_elif = True
 
 
+COMBO = ["rename", "flipcmp", "commute", "hoist", "elseret", "annotate", "raisemsg", "log"]
+
+
 def transform(src, kind, arg=None):
+    if kind == "combo":
+        for k in COMBO:
+            nxt = transform(src, k)
+            src = nxt if nxt is not None else src
+        return src
     tree = ast.parse(src)
     if kind == "reformat":
         pass
@@ -263,6 +414,16 @@ def transform(src, kind, arg=None):
         tree = HoistTemp().visit(tree)
     elif kind == "inline":
         tree = InlineTemp().visit(tree)
+    elif kind == "elseret":
+        tree = ElseAfterReturn().visit(tree)
+    elif kind == "annotate":
+        tree = Annotate().visit(tree)
+    elif kind == "raisemsg":
+        tree = RaiseMessages().visit(tree)
+    elif kind == "shuffle":
+        tree = ShuffleMembers().visit(tree)
+    elif kind == "extract":
+        tree = ExtractHelper().visit(tree)
     else:
         raise ValueError(kind)
     ast.fix_missing_locations(tree)
@@ -291,14 +452,14 @@ def one(job):
     try:
         new = transform(repo.sources_by_path[rel], kind, arg)
     except Exception as e:
-        return (rel, kind, arg, [("TRANSFORM", f"{type(e).__name__}: {e}")])
+        return (rel, kind, arg, [("TRANSFORM", f"{type(e).__name__}: {e}")], 0)
     if new is None:
-        return (rel, kind, arg, [])
+        return (rel, kind, arg, [], 0)
     out = []
     try:
         r2 = Repo(repo.root, overrides={rel: new}, base=repo)
     except Exception as e:
-        return (rel, kind, arg, [("LOAD", str(e))])
+        return (rel, kind, arg, [("LOAD", str(e))], 0)
     for p in props:
         mod = importlib.import_module(f"pvx.rules.{p.lower()}")
         ctx = report.Ctx(r2, p, "quick")
@@ -312,13 +473,13 @@ def one(job):
             out.append((p, "VIOLATION " + k))
         for k in sorted(set(analysis_problems(ctx)) - bp):
             out.append((p, "UNDECIDED " + k[:160]))
-    return (rel, kind, arg, out)
+    return (rel, kind, arg, out, sum(len(v) for v in r2.restored.values()))
 
 
 def main():
     ap = argparse.ArgumentParser()
     ap.add_argument("--props", default=",".join(PROPS))
-    ap.add_argument("--kinds", default="reformat,log,rename,negate,flipcmp,commute,hoist,inline")
+    ap.add_argument("--kinds", default="reformat,log,rename,negate,flipcmp,commute,hoist,inline,elseret,annotate,raisemsg,shuffle,extract,combo")
     ap.add_argument("--files", default="")
     ap.add_argument("-j", type=int, default=16)
     ap.add_argument("--root", default="/repo")
@@ -335,10 +496,13 @@ def main():
     with mp.get_context("fork").Pool(args.j) as pool:
         res = pool.map(one, jobs, chunksize=1)
     n_bad = 0
-    for rel, kind, arg, out in res:
+    per_kind = {}
+    for rel, kind, arg, out, n_restored in res:
+        per_kind[kind] = per_kind.get(kind, 0) + n_restored
         for p, msg in out:
             n_bad += 1
             print(f"{rel:45s} {kind:9s} {p}: {msg}")
+    print("functions recognised as equivalent to their reference, per kind:", per_kind)
     print(f"{len(jobs)} variants x {len(props)} properties; {n_bad} false alarms / undecided")
     return 1 if n_bad else 0
 
